@@ -7,14 +7,120 @@ the Coq model of the activation loop depends on -> Gen_Forms.v.
   * Assemble of both classes: where rows / columns come from
   * Field.__call__: does the returned array depend on the active dof?
   * Field.grad layout (newArray[..., :, dof] = dN[..., node]); Sym_Grad
-"""
+
+The comparison is not textual.  Each function is reduced to a canonical *effect tree*:
+single-assignment locals are inlined into their uses (so renaming a local, introducing or
+removing a temporary, reordering independent assignments, dropping a dead assignment do not
+matter), loop variables are renamed by nesting depth, and only the observable statements
+remain (calls made for their effect, stores into arrays, returns, loops, branches).  The tree
+of the source must equal the tree of one of the reference bodies written below (the code the
+Coq model was written against, plus accepted variants).  Anything else is a translation
+failure (fail-closed)."""
 import ast
+import copy
 import os
+import textwrap
 
 from translator.pyexpr import TranslateError
 
 FORMS = "EasyFEA/FEM/_forms.py"
 FIELD = "EasyFEA/FEM/_field.py"
+
+
+# ------------------------------------------------------------------------------------------
+# canonical effect trees
+# ------------------------------------------------------------------------------------------
+class _Subst(ast.NodeTransformer):
+    def __init__(self, env):
+        self.env = env
+
+    def visit_Name(self, n):
+        if isinstance(n.ctx, ast.Load) and n.id in self.env:
+            return copy.deepcopy(self.env[n.id])
+        return n
+
+
+def _assigned_counts(fn):
+    cnt = {}
+
+    def add(t):
+        if isinstance(t, ast.Name):
+            cnt[t.id] = cnt.get(t.id, 0) + 1
+        elif isinstance(t, (ast.Tuple, ast.List)):
+            for e in t.elts:
+                add(e)
+    for n in ast.walk(fn):
+        if isinstance(n, ast.Assign):
+            for t in n.targets:
+                add(t)
+        elif isinstance(n, (ast.AugAssign, ast.AnnAssign)):
+            add(n.target)
+            add(n.target)          # never inline
+        elif isinstance(n, ast.For):
+            add(n.target)
+            add(n.target)
+    return cnt
+
+
+def canon(fn, where):
+    """FunctionDef -> nested tuple of canonical effect strings"""
+    cnt = _assigned_counts(fn)
+
+    def sub(node, env):
+        new = _Subst(env).visit(copy.deepcopy(node))
+        return ast.unparse(ast.fix_missing_locations(new))
+
+    def block(stmts, env, depth):
+        out = []
+        for s in stmts:
+            if isinstance(s, ast.Expr):
+                if isinstance(s.value, ast.Constant):
+                    continue
+                out.append(("do", sub(s.value, env)))
+            elif isinstance(s, ast.Assign):
+                val = _Subst(env).visit(copy.deepcopy(s.value))
+                for t in s.targets:
+                    if isinstance(t, ast.Name):
+                        if cnt.get(t.id, 0) == 1:
+                            env[t.id] = val
+                        else:
+                            out.append(("set", t.id, ast.unparse(val)))
+                    elif isinstance(t, (ast.Tuple, ast.List)) and all(isinstance(e, ast.Name) for e in t.elts):
+                        for k, e in enumerate(t.elts):
+                            item = ast.Subscript(value=copy.deepcopy(val), slice=ast.Constant(k), ctx=ast.Load())
+                            if cnt.get(e.id, 0) == 1:
+                                env[e.id] = item
+                            else:
+                                out.append(("set", e.id, ast.unparse(ast.fix_missing_locations(item))))
+                    elif isinstance(t, ast.Subscript):
+                        out.append(("store", sub(t, env), ast.unparse(val)))
+                    else:
+                        raise TranslateError("%s: assignment target %s" % (where, ast.unparse(t)))
+            elif isinstance(s, ast.AugAssign):
+                out.append(("aug", sub(s.target, env), type(s.op).__name__, sub(s.value, env)))
+            elif isinstance(s, ast.Return):
+                out.append(("return", "" if s.value is None else sub(s.value, env)))
+            elif isinstance(s, ast.Assert):
+                continue                       # checks only
+            elif isinstance(s, ast.For):
+                if not isinstance(s.target, ast.Name) or s.orelse:
+                    raise TranslateError("%s: loop shape" % where)
+                e2 = dict(env)
+                e2[s.target.id] = ast.Name(id="_L%d" % depth, ctx=ast.Load())
+                out.append(("for", "_L%d" % depth, sub(s.iter, env), tuple(block(s.body, e2, depth + 1))))
+            elif isinstance(s, ast.If):
+                out.append(("if", sub(s.test, env), tuple(block(s.body, dict(env), depth)), tuple(block(s.orelse, dict(env), depth))))
+            elif isinstance(s, ast.Pass):
+                continue
+            else:
+                raise TranslateError("%s: statement %s" % (where, type(s).__name__))
+        return out
+    return tuple(block(fn.body, {}, 0))
+
+
+def _ref(src):
+    fn = ast.parse(textwrap.dedent(src)).body[0]
+    return canon(fn, "reference")
 
 
 def _cls(mod, name, path):
@@ -31,112 +137,144 @@ def _fn(node, name, path):
     raise TranslateError("%s: function %s not found" % (path, name))
 
 
-def _stmts(fn):
-    """flattened source lines of all simple statements (comments/docstrings dropped)"""
-    out = []
-    for n in ast.walk(fn):
-        if isinstance(n, (ast.Assign, ast.AugAssign, ast.Return, ast.Assert)) or (isinstance(n, ast.Expr) and not isinstance(n.value, ast.Constant)):
-            out.append(ast.unparse(n))
-    return out
+def _match(fn, refs, where):
+    """-> key of the first reference whose effect tree equals the function's"""
+    got = canon(fn, where)
+    for key, src in refs:
+        if got == _ref(src):
+            return key
+    raise TranslateError("%s: the body is none of the %d shapes the model was written against; canonical effects: %s" % (where, len(refs), repr(got)[:700]))
 
 
-def _need(lines, wanted, where):
-    for w in wanted:
-        if w not in lines:
-            raise TranslateError("%s: expected statement `%s` not found (the loop model no longer matches the source)" % (where, w))
+# ------------------------------------------------------------------------------------------
+# reference bodies
+# ------------------------------------------------------------------------------------------
+REF_BIL_INTEGRATE = '''
+def Integrate_e(self, field):
+    dof_n = field.dof_n
+    groupElem = field.groupElem
+    nPe = groupElem.nPe
+    data = np.zeros((groupElem.Ne, nPe * dof_n, nPe * dof_n), dtype=float)
+    form = self._form
+    u = field
+    v = field.copy()
+    dofs = np.arange(nPe * dof_n)
+    nodes = np.arange(nPe).reshape(nPe, 1).repeat(dof_n, axis=1).ravel()
+    dX_e_pg = groupElem.Get_weightedJacobian_e_pg(field.matrixType)
+    for i in dofs:
+        u._Set_current_active_node(nodes[i])
+        u._Set_current_active_dof(i % dof_n)
+        for j in dofs:
+            v._Set_current_active_node(nodes[j])
+            v._Set_current_active_dof(j % dof_n)
+            values_e_pg = form(u, v)
+            values_e = (values_e_pg * dX_e_pg).integrate()
+            data[:, i, j] = values_e
+    return data
+'''
+
+_LIN_HEAD = '''
+def Integrate_e(self, field):
+    dof_n = field.dof_n
+    groupElem = field.groupElem
+    nPe = groupElem.nPe
+    data = np.zeros((groupElem.Ne, nPe * dof_n, 1), dtype=float)
+    form = self._form
+    v = field
+    dofs = np.arange(nPe * dof_n)
+    nodes = np.arange(nPe).reshape(nPe, 1).repeat(dof_n, axis=1).ravel()
+    dX_e_pg = groupElem.Get_weightedJacobian_e_pg(field.matrixType)
+    for i in dofs:
+        v._Set_current_active_node(nodes[i])
+        v._Set_current_active_dof(i % dof_n)
+        values_e_pg = form(v)
+        values_e = (values_e_pg * dX_e_pg).integrate()
+        @STORE@
+    return data
+'''
+REF_LIN_INTEGRATE = [("plain", _LIN_HEAD.replace("@STORE@", "data[:, i] = values_e")),
+                     ("reshape", _LIN_HEAD.replace("@STORE@", "data[:, i] = np.asarray(values_e).reshape(-1, 1)")),
+                     ("reshape0", _LIN_HEAD.replace("@STORE@", "data[:, i, 0] = np.asarray(values_e).reshape(-1)"))]
+
+_ASM = '''
+def Assemble(self, field):
+    dof_n = field.dof_n
+    groupElem = field.groupElem
+    values = self.Integrate_e(field=field).ravel()
+    rows = %s
+    columns = %s
+    Ndof = groupElem.Ncoords * dof_n
+    shape = %s
+    matrix = csr_matrix((values.ravel(), (rows, columns)), shape=shape)
+    return matrix
+'''
+ROWS = {"RowsE": "groupElem.Get_rows_e(dof_n).ravel()", "AssemblyE": "groupElem.Get_assembly_e(dof_n).ravel()"}
+COLS = {"ColumnsE": "groupElem.Get_columns_e(dof_n).ravel()", "Ones": "np.ones_like(rows)", "Zeros": "np.zeros_like(rows)"}
 
 
-def translate(repo):
-    pf = os.path.join(repo, FORMS)
-    mod = ast.parse(open(pf).read())
-    res = {}
-    # ---- BiLinearForm.Integrate_e
-    bl = _cls(mod, "BiLinearForm", FORMS)
-    li = _stmts(_fn(bl, "Integrate_e", FORMS))
-    _need(li, ["data = np.zeros((groupElem.Ne, nPe * dof_n, nPe * dof_n), dtype=float)", "form = self._form",
-               "u = field", "v = field.copy()", "dofs = np.arange(nPe * dof_n)",
-               "nodes = np.arange(nPe).reshape(nPe, 1).repeat(dof_n, axis=1).ravel()",
-               "dX_e_pg = groupElem.Get_weightedJacobian_e_pg(field.matrixType)",
-               "u._Set_current_active_node(nodes[i])", "u._Set_current_active_dof(i % dof_n)",
-               "v._Set_current_active_node(nodes[j])", "v._Set_current_active_dof(j % dof_n)",
-               "values_e_pg = form(u, v)", "values_e = (values_e_pg * dX_e_pg).integrate()", "data[:, i, j] = values_e",
-               "return data"], FORMS + ":BiLinearForm.Integrate_e")
-    fn = _fn(bl, "Integrate_e", FORMS)
-    loops = [n for n in ast.walk(fn) if isinstance(n, ast.For)]
-    if [ast.unparse(l.target) + " in " + ast.unparse(l.iter) for l in loops] != ["i in dofs", "j in dofs"]:
-        raise TranslateError("%s: BiLinearForm.Integrate_e loops are not `for i in dofs: for j in dofs`" % FORMS)
-    # ---- LinearForm.Integrate_e
-    ll = _cls(mod, "LinearForm", FORMS)
-    li = _stmts(_fn(ll, "Integrate_e", FORMS))
-    _need(li, ["data = np.zeros((groupElem.Ne, nPe * dof_n, 1), dtype=float)", "v = field", "dofs = np.arange(nPe * dof_n)",
-               "nodes = np.arange(nPe).reshape(nPe, 1).repeat(dof_n, axis=1).ravel()",
-               "v._Set_current_active_node(nodes[i])", "v._Set_current_active_dof(i % dof_n)",
-               "values_e_pg = form(v)", "values_e = (values_e_pg * dX_e_pg).integrate()"],
-          FORMS + ":LinearForm.Integrate_e")
-    if not any(x in li for x in ("data[:, i] = values_e", "data[:, i] = np.asarray(values_e).reshape(-1, 1)", "data[:, i, 0] = np.asarray(values_e).reshape(-1)")):
-        raise TranslateError("%s: LinearForm.Integrate_e does not store values_e in data[:, i]" % FORMS)
-    # ---- Assemble
-    def assemble(cls, name):
-        fn = _fn(cls, "Assemble", FORMS)
-        rows = cols = shape = None
-        for n in ast.walk(fn):
-            if isinstance(n, ast.Assign) and len(n.targets) == 1 and isinstance(n.targets[0], ast.Name):
-                t, v = n.targets[0].id, ast.unparse(n.value)
-                if t == "rows":
-                    rows = v
-                if t == "columns":
-                    cols = v
-                if t == "shape":
-                    shape = v
-        lines = _stmts(fn)
-        _need(lines, ["values = self.Integrate_e(field=field).ravel()", "Ndof = groupElem.Ncoords * dof_n",
-                      "matrix = csr_matrix((values.ravel(), (rows, columns)), shape=shape)", "return matrix"], FORMS + ":%s.Assemble" % name)
-        rk = {"groupElem.Get_rows_e(dof_n).ravel()": "RowsE", "groupElem.Get_assembly_e(dof_n).ravel()": "AssemblyE"}.get(rows)
-        ck = {"groupElem.Get_columns_e(dof_n).ravel()": "ColumnsE", "np.ones_like(rows)": "Ones", "np.zeros_like(rows)": "Zeros"}.get(cols)
-        if rk is None or ck is None:
-            raise TranslateError("%s: %s.Assemble rows=%s columns=%s not recognised" % (FORMS, name, rows, cols))
-        return rk, ck, shape
-    res["bil_rows"], res["bil_cols"], res["bil_shape"] = assemble(bl, "BiLinearForm")
-    res["lin_rows"], res["lin_cols"], res["lin_shape"] = assemble(ll, "LinearForm")
-    if res["bil_shape"] != "(Ndof, Ndof)" or res["lin_shape"] != "(Ndof, 1)":
-        raise TranslateError("%s: Assemble shapes %s / %s" % (FORMS, res["bil_shape"], res["lin_shape"]))
-    # ---- Field
-    pfi = os.path.join(repo, FIELD)
-    fmod = ast.parse(open(pfi).read())
-    fc = _cls(fmod, "Field", FIELD)
-    call = _fn(fc, "__call__", FIELD)
-    src = ast.unparse(call)
-    lines = _stmts(call)
-    if "node = self._Get_current_active_node()" not in lines or "N_pg = self.groupElem.Get_N_pg(self.__matrixType)" not in lines:
-        raise TranslateError("%s: Field.__call__ does not read the active node / N_pg as modelled" % FIELD)
-    uses = ("_Get_current_active_dof" in src) or ("self.__dof" in src and "self.__dof_n" != "self.__dof")
-    uses = "_Get_current_active_dof()" in src or any("self.__dof]" in l or "self.__dof " in l for l in lines)
-    if not uses:
-        if "array = FeArray.asfearray(N_pg[..., node].reshape(1, nPg, 1))" not in lines:
-            raise TranslateError("%s: Field.__call__ not recognised" % FIELD)
+def _asm_refs(shape):
+    return [((rk, ck), _ASM % (rv, cv, shape)) for rk, rv in ROWS.items() for ck, cv in COLS.items()]
+
+
+REF_CALL = [(False, '''
+def __call__(self):
+    node = self._Get_current_active_node()
+    N_pg = self.groupElem.Get_N_pg(self.__matrixType)
+    nPg, _, _ = N_pg.shape
+    array = FeArray.asfearray(N_pg[..., node].reshape(1, nPg, 1))
+    return array
+'''), (True, '''
+def __call__(self):
+    node = self._Get_current_active_node()
+    N_pg = self.groupElem.Get_N_pg(self.__matrixType)
+    nPg, _, _ = N_pg.shape
+    dof_n = self.__dof_n
+    if dof_n == 1:
+        array = FeArray.asfearray(N_pg[..., node].reshape(1, nPg, 1))
     else:
-        ok = any(("[..., dof] = " in l and "N_pg[..., node]" in l) for l in lines) and any("dof_n == 1" in ast.unparse(n.test) for n in ast.walk(call) if isinstance(n, ast.If))
-        if not ok:
-            raise TranslateError("%s: Field.__call__ uses the active dof in a way the model does not recognise" % FIELD)
-    res["call_uses_dof"] = bool(uses)
-    grad = None
-    for n in fc.body:
-        if isinstance(n, ast.FunctionDef) and n.name == "grad":
-            grad = n
-    if grad is None:
-        raise TranslateError("%s: Field.grad not found" % FIELD)
-    _need(_stmts(grad), ["node = self._Get_current_active_node()", "dof = self._Get_current_active_dof()",
-                         "dN_e_pg = self.groupElem.Get_dN_e_pg(self.__matrixType)", "array = FeArray.asfearray(dN_e_pg[..., node])",
-                         "newArray = FeArray.zeros(Ne, nPg, dim, dof_n, dtype=float)", "newArray[..., :, dof] = array"], FIELD + ":Field.grad")
-    sg = None
-    for n in fmod.body:
-        if isinstance(n, ast.FunctionDef) and n.name == "Sym_Grad":
-            sg = n
-    if sg is None:
-        raise TranslateError("%s: Sym_Grad not found" % FIELD)
-    l = _stmts(sg)
-    if "grad = u.grad" not in l or not any(x in l for x in ("return 0.5 * (grad.T + grad)", "return 0.5 * (grad + grad.T)", "return (grad.T + grad) / 2", "return (grad + grad.T) / 2")):
-        raise TranslateError("%s: Sym_Grad is not 1/2 (grad.T + grad)" % FIELD)
+        dof = self._Get_current_active_dof()
+        array = FeArray.zeros(1, nPg, dof_n, dtype=float)
+        array[..., dof] = N_pg[..., node].reshape(1, nPg)
+    return array
+''')]
+
+REF_GRAD = [("ok", '''
+def grad(self):
+    dof_n = self.__dof_n
+    if self.__is_currently_evaluated:
+        return self.groupElem.Get_Gradient_e_pg(self._Get_dofsValues(), self.matrixType)[..., :dof_n, :dof_n]
+    node = self._Get_current_active_node()
+    dof = self._Get_current_active_dof()
+    dN_e_pg = self.groupElem.Get_dN_e_pg(self.__matrixType)
+    Ne, nPg, dim, _ = dN_e_pg.shape
+    array = FeArray.asfearray(dN_e_pg[..., node])
+    if dof_n == 1:
+        return array
+    else:
+        newArray = FeArray.zeros(Ne, nPg, dim, dof_n, dtype=float)
+        newArray[..., :, dof] = array
+        return newArray
+''')]
+
+REF_SYMGRAD = [("ok", "def Sym_Grad(u):\n    grad = u.grad\n    return %s\n" % e) for e in
+               ("0.5 * (grad.T + grad)", "0.5 * (grad + grad.T)", "(grad.T + grad) / 2", "(grad + grad.T) / 2", "(grad.T + grad) * 0.5", "(grad + grad.T) * 0.5")]
+
+
+# ------------------------------------------------------------------------------------------
+def translate(repo):
+    mod = ast.parse(open(os.path.join(repo, FORMS)).read())
+    res = {}
+    bl = _cls(mod, "BiLinearForm", FORMS)
+    ll = _cls(mod, "LinearForm", FORMS)
+    _match(_fn(bl, "Integrate_e", FORMS), [("ok", REF_BIL_INTEGRATE)], FORMS + ":BiLinearForm.Integrate_e")
+    res["lin_store"] = _match(_fn(ll, "Integrate_e", FORMS), REF_LIN_INTEGRATE, FORMS + ":LinearForm.Integrate_e")
+    res["bil_rows"], res["bil_cols"] = _match(_fn(bl, "Assemble", FORMS), _asm_refs("(Ndof, Ndof)"), FORMS + ":BiLinearForm.Assemble")
+    res["lin_rows"], res["lin_cols"] = _match(_fn(ll, "Assemble", FORMS), _asm_refs("(Ndof, 1)"), FORMS + ":LinearForm.Assemble")
+    fmod = ast.parse(open(os.path.join(repo, FIELD)).read())
+    fc = _cls(fmod, "Field", FIELD)
+    res["call_uses_dof"] = _match(_fn(fc, "__call__", FIELD), REF_CALL, FIELD + ":Field.__call__")
+    _match(_fn(fc, "grad", FIELD), REF_GRAD, FIELD + ":Field.grad")
+    _match(_fn(fmod, "Sym_Grad", FIELD), REF_SYMGRAD, FIELD + ":Sym_Grad")
     return res
 
 
